@@ -34,7 +34,7 @@ Fixpoint leaf_ids (e : sexpr) : list nat :=
 (* completed or absent: deep (no live operation anywhere inside).  [stage 5] a completed allocate keeps its
    ONode (the destructor needs the allocator stored in it) *)
 Fixpoint done_st (e : sexpr) (st : ost) {struct e} : Prop :=
-  match e, unwrap st with                (* [stage 6] stores wrapped around a completed operation do not matter *)
+  match e, st with
   | _, OFin => True
   | Leaf _, OLeaf true _ => True
   | LeafN _, OLeaf true _ => True
@@ -53,7 +53,6 @@ Definition inert (e : sexpr) (st : ost) : Prop :=
   | OLeaf true _ => True
   | OCompl _ _ => True
   | ONode _ _ _ => done_st e st
-  | OStore _ _ _ => True               (* [stage 6] only completed operations are wrapped *)
   | _ => False
   end.
 
@@ -123,20 +122,20 @@ Proof. destruct e; simpl; auto. Qed.
 
 Lemma done_inert : forall e st, done_st e st -> inert e st.
 Proof.
-  destruct e as [v|x| |n|id|id|id c|id lvl| |id|k s|k a b]; destruct st as [|[|] ?| | | |? ? ?]; simpl; auto;
+  destruct e as [v|x| |n|id|id|id c|id lvl| |id|k s|k a b]; destruct st as [|[|] ?| | |]; simpl; auto;
     destruct k; auto.
 Qed.
 
 Lemma wf2_not_done : forall e st, wf2 e st -> ~ done_st e st.
 Proof.
   induction e as [v|x| |n|id|id|id c|id lvl| |id|k s IHs|k a IHa b IHb]; intros st H D;
-    destruct st as [|[|] ?|ns sa sb|sa sb|v'|? ? ?]; simpl in *; try contradiction.
+    destruct st as [|[|] ?|ns sa sb|sa sb|v']; simpl in *; try contradiction.
   destruct sb; try contradiction. destruct k; try contradiction. exact (IHs _ H D).
 Qed.
 
 Lemma wf2_not_inert : forall e st, wf2 e st -> ~ inert e st.
 Proof.
-  intros e st H I. destruct st as [|[|] ?|ns sa sb|sa sb|v'|? ? ?]; simpl in I; try contradiction;
+  intros e st H I. destruct st as [|[|] ?|ns sa sb|sa sb|v']; simpl in I; try contradiction;
     try (destruct e; simpl in H; contradiction).
   exact (wf2_not_done _ _ H I).
 Qed.
@@ -148,8 +147,8 @@ Lemma sim_done : forall e st st', sim e st st' -> done_st e st -> done_st e st'.
 Proof.
   induction e as [v|x| |n|id|id|id c|id lvl| |id|k s IHs|k a IHa b IHb]; intros st st' [->|S] D; auto;
     simpl in S; try contradiction.
-  destruct k; try contradiction. destruct st as [| |ns sc sx| | |? ? ?]; try contradiction.
-  destruct sx; try contradiction. destruct st' as [| |ns' sc' sx'| | |? ? ?]; try contradiction.
+  destruct k; try contradiction. destruct st as [| |ns sc sx| |]; try contradiction.
+  destruct sx; try contradiction. destruct st' as [| |ns' sc' sx'| |]; try contradiction.
   destruct sx'; try contradiction. destruct S as (_ & S). simpl in *. exact (IHs _ _ S D).
 Qed.
 
@@ -157,8 +156,8 @@ Lemma sim_dtor : forall e st st', sim e st st' -> dtor e st' = dtor e st.
 Proof.
   induction e as [v|x| |n|id|id|id c|id lvl| |id|k s IHs|k a IHa b IHb]; intros st st' [->|S]; auto;
     simpl in S; try contradiction.
-  destruct k; try contradiction. destruct st as [| |ns sc sx| | |? ? ?]; try contradiction.
-  destruct sx; try contradiction. destruct st' as [| |ns' sc' sx'| | |? ? ?]; try contradiction.
+  destruct k; try contradiction. destruct st as [| |ns sc sx| |]; try contradiction.
+  destruct sx; try contradiction. destruct st' as [| |ns' sc' sx'| |]; try contradiction.
   destruct sx'; try contradiction. destruct S as (E & S). simpl. rewrite (IHs _ _ S), E. reflexivity.
 Qed.
 
@@ -167,7 +166,7 @@ Qed.
 Lemma stop_inert : forall e st cx, inert e st -> exists st', stop e st cx = (st', [], None) /\ sim e st st'.
 Proof.
   induction e as [v|x| |n|id|id|id c|id lvl| |id|k s IHs|k a IHa b IHb]; intros st cx H;
-    destruct st as [|[|] [|]|ns sa sb|sa sb|v'|? ? ?]; simpl in H; try contradiction;
+    destruct st as [|[|] [|]|ns sa sb|sa sb|v']; simpl in H; try contradiction;
     try (eexists; split; [reflexivity|left; reflexivity]).
   destruct k; try contradiction. destruct sb; try contradiction.
   destruct (IHs sa cx (done_inert _ _ H)) as (sa' & E & S). simpl. rewrite E.
@@ -177,7 +176,7 @@ Qed.
 Lemma leafev_inert : forall e st id o cx, inert e st -> leafev e st id o cx = ((st, [], None), false).
 Proof.
   induction e as [v|x| |n|id|id|id c|id lvl| |id|k s IHs|k a IHa b IHb]; intros st id0 o cx H;
-    destruct st as [|[|] [|]|ns sa sb|sa sb|v'|? ? ?]; simpl in H; try contradiction; try reflexivity.
+    destruct st as [|[|] [|]|ns sa sb|sa sb|v']; simpl in H; try contradiction; try reflexivity.
   destruct k; try contradiction. destruct sb; try contradiction.
   simpl. rewrite (IHs sa id0 (un_in UAllocate o) cx (done_inert _ _ H)). reflexivity.
 Qed.
@@ -185,7 +184,7 @@ Qed.
 Lemma pending_inert : forall e st, inert e st -> pending e st = [].
 Proof.
   induction e as [v|x| |n|id|id|id c|id lvl| |id|k s IHs|k a IHa b IHb]; intros st H;
-    destruct st as [|[|] [|]|ns sa sb|sa sb|v'|? ? ?]; simpl in H; try contradiction; try reflexivity.
+    destruct st as [|[|] [|]|ns sa sb|sa sb|v']; simpl in H; try contradiction; try reflexivity.
   destruct k; try contradiction. destruct sb; try contradiction.
   simpl. apply IHs. apply done_inert. exact H.
 Qed.
@@ -243,23 +242,14 @@ Proof.
   intros. unfold seq_pass. destruct (eager_dtor k); simpl; auto. split; [assumption|apply done_fin].
 Qed.
 
-(* [stage 6] stores wrapped around a completed operation *)
-Lemma done_store : forall e k v st, done_st e (OStore k v st) <-> done_st e st.
-Proof. destruct e; simpl; tauto. Qed.
-
-Lemma done_wrap : forall e h st, done_st e st -> done_st e (wrap h st).
-Proof. intros e [[k v]|] st H; simpl; auto. apply done_store. exact H. Qed.
-
-Lemma seq_final_good : forall k h a b sb tr o, done_st b sb -> good2 (Bin k a b) (seq_final k h b sb tr o).
+Lemma seq_final_good : forall k a b sb tr o, done_st b sb -> good2 (Bin k a b) (seq_final k b sb tr o).
 Proof.
-  intros. unfold seq_final. destruct (eager_dtor k); unfold good2; [apply done_fin|].
-  apply done_wrap. simpl. split; [apply done_fin|assumption].
+  intros. unfold seq_final. destruct (eager_dtor k); simpl; auto. split; [apply done_fin|assumption].
 Qed.
 
-Lemma conc_reap_good : forall k i ns c r, good2 c r -> good2 c (conc_reap k i ns c r).
+Lemma conc_reap_good : forall k c r, good2 c r -> good2 c (conc_reap k c r).
 Proof.
-  intros k i ns c [[sc tr] [[v|x| |v|v]|]] H; destruct k; simpl in *; auto; try (destruct i; simpl; auto);
-    try (apply done_store; auto); apply done_fin.
+  intros k c [[sc tr] [[v|x| |v|v]|]] H; destruct k; simpl in *; auto; apply done_fin.
 Qed.
 
 Lemma finish_conc_good : forall k a b ns sa sb tr fin leak,
@@ -269,7 +259,7 @@ Lemma finish_conc_good : forall k a b ns sa sb tr fin leak,
 Proof.
   intros k a b ns sa sb tr [o|] leak H1 H2; unfold finish_conc.
   - assert (done_st a sa /\ done_st b sb) as D by (apply H1; discriminate).
-    destruct k; try (simpl; exact D). destruct o; destruct (cell ns); simpl; auto.
+    destruct k; try (simpl; exact D). destruct o; simpl; auto.
   - simpl. apply H2. reflexivity.
 Qed.
 
@@ -400,8 +390,8 @@ Opaque conc_child_done un_result after_first after_second is_seq un_done seq_pas
 Ltac head_scrut t :=
   lazymatch t with
   | fst ?y => head_scrut y
-  | conc_reap _ _ _ _ (match ?x with _ => _ end) => head_scrut x
-  | conc_reap _ _ _ _ (fst ?y) => head_scrut y
+  | conc_reap _ _ (match ?x with _ => _ end) => head_scrut x
+  | conc_reap _ _ (fst ?y) => head_scrut y
   | match ?x with _ => _ end => head_scrut x
   | _ => t
   end.
@@ -446,8 +436,8 @@ Ltac step_on x :=
   | leafev ?a ?st ?id ?o ?cx =>
       try (assert (good2 a (fst (leafev a st id o cx))) by auto);
       revert_about x; destruct x as [[[? ?] [?|]] ?]; intros; simpl_good; subst
-  | conc_reap ?k ?i ?ns ?a ?y =>
-      try (assert (good2 a (conc_reap k i ns a y)) by (apply conc_reap_good; simpl; auto));
+  | conc_reap ?k ?a ?y =>
+      try (assert (good2 a (conc_reap k a y)) by (apply conc_reap_good; simpl; auto));
       revert_about x; destruct x as [[? ?] [?|]]; intros; simpl_good; subst
   | conc_child_done ?k ?ns ?i ?o =>
       let E := fresh "E" in
@@ -510,26 +500,26 @@ Proof.
   - (* Leaf *)
     repeat split.
     + intros en cx. unfold good2. simpl. destruct (sthrows _); simpl; [exact I|]. destruct (e_stopped en); simpl; auto.
-    + intros st cx H. unfold good2. destruct st as [|[|] [|]| | | |? ? ?]; simpl in *; auto; contradiction.
-    + intros st id0 o cx H. unfold good2. destruct st as [|[|] sn| | | |? ? ?]; simpl in *; try contradiction.
+    + intros st cx H. unfold good2. destruct st as [|[|] [|]| | |]; simpl in *; auto; contradiction.
+    + intros st id0 o cx H. unfold good2. destruct st as [|[|] sn| | |]; simpl in *; try contradiction.
       destruct (Nat.eqb id0 id); simpl; auto.
   - (* LeafN *)
     repeat split.
     + intros en cx. unfold good2. simpl. destruct (sthrows _); simpl; [exact I|]. destruct (e_stopped en); simpl; auto.
-    + intros st cx H. unfold good2. destruct st as [|[|] [|]| | | |? ? ?]; simpl in *; auto; contradiction.
-    + intros st id0 o cx H. unfold good2. destruct st as [|[|] [|]| | | |? ? ?]; simpl in *; try contradiction.
+    + intros st cx H. unfold good2. destruct st as [|[|] [|]| | |]; simpl in *; auto; contradiction.
+    + intros st id0 o cx H. unfold good2. destruct st as [|[|] [|]| | |]; simpl in *; try contradiction.
       destruct (Nat.eqb id0 id); simpl; auto.
   - (* Sched *)
     split; [|split].
     + intros en cx. unfold good2. simpl. destruct (sthrows _); simpl; [exact I|]. destruct (e_stopped en); simpl; auto.
-    + intros st cx H. unfold good2. destruct st as [|[|] [|]| | | |? ? ?]; simpl in *; auto; contradiction.
-    + intros st id0 o cx H. unfold good2. destruct st as [|[|] sn| | | |? ? ?]; simpl in *; try contradiction.
+    + intros st cx H. unfold good2. destruct st as [|[|] [|]| | |]; simpl in *; auto; contradiction.
+    + intros st id0 o cx H. unfold good2. destruct st as [|[|] sn| | |]; simpl in *; try contradiction.
       destruct (Nat.eqb id0 id); simpl; auto.
   - (* LeafR *)
     repeat split.
     + intros en cx. unfold good2. simpl. destruct (sthrows _); simpl; [exact I|]. destruct (e_stopped en); simpl; auto.
-    + intros st cx H. unfold good2. destruct st as [|[|] [|]| | | |? ? ?]; simpl in *; auto; contradiction.
-    + intros st id0 o cx H. unfold good2. destruct st as [|[|] sn| | | |? ? ?]; simpl in *; try contradiction.
+    + intros st cx H. unfold good2. destruct st as [|[|] [|]| | |]; simpl in *; auto; contradiction.
+    + intros st id0 o cx H. unfold good2. destruct st as [|[|] sn| | |]; simpl in *; try contradiction.
       * destruct (Nat.eqb id0 id); simpl; auto. destruct o; simpl; auto.
       * destruct (Nat.eqb id0 id); simpl; auto.
   - (* StopIf *)
@@ -539,10 +529,10 @@ Proof.
   - (* Un *)
     destruct IHs as (IH1 & IH2 & IH3). repeat split.
     + intros en cx. repeat step; finish_good.
-    + intros st cx H. destruct st as [| |ns sc sx| | |? ? ?]; simpl in H; try contradiction.
+    + intros st cx H. destruct st as [| |ns sc sx| |]; simpl in H; try contradiction.
       destruct sx; try contradiction.
       destruct k; simpl; try exact H; repeat step; finish_good.
-    + intros st id o cx H. destruct st as [| |ns sc sx| | |? ? ?]; simpl in H; try contradiction.
+    + intros st id o cx H. destruct st as [| |ns sc sx| |]; simpl in H; try contradiction.
       destruct sx; try contradiction.
       repeat step; finish_good.
   - (* Bin *)
@@ -551,14 +541,14 @@ Proof.
     + intros en cx. destruct (is_seq k) eqn:Hk.
       * repeat step; finish_good.
       * repeat step; finish_good.
-    + intros st cx H. destruct st as [| |ns sa sb| | |? ? ?]; simpl in H; try contradiction.
+    + intros st cx H. destruct st as [| |ns sa sb| |]; simpl in H; try contradiction.
       destruct (is_seq k) eqn:Hk.
       * destruct (ph ns) eqn:P0; try contradiction; destruct H as (Ha & Hb); subst;
           repeat step; finish_good.
       * destruct H as (Ha & Hb & Hab).
         destruct (adone ns) eqn:A0; destruct (bdone ns) eqn:B0; simpl in Hab; try discriminate; subst;
           repeat step; finish_good.
-    + intros st id o cx H. destruct st as [| |ns sa sb| | |? ? ?]; simpl in H; try contradiction.
+    + intros st id o cx H. destruct st as [| |ns sa sb| |]; simpl in H; try contradiction.
       destruct (is_seq k) eqn:Hk.
       * destruct (ph ns) eqn:P0; try contradiction; destruct H as (Ha & Hb); subst;
           repeat step; finish_good.
@@ -610,28 +600,28 @@ Lemma hit_iff : forall e st id o cx, wf2 e st -> hit_ok e st id (leafev e st id 
 Proof.
   induction e as [v|x| |n|id|id|id c|id lvl| |id|k s IHs|k a IHa b IHb]; intros st id0 o cx H; simpl in H;
     try contradiction.
-  - destruct st as [|[|] sn| | | |? ? ?]; simpl in *; try contradiction.
+  - destruct st as [|[|] sn| | |]; simpl in *; try contradiction.
     unfold hit_ok. destruct (Nat.eqb id0 id) eqn:E; simpl.
     + apply Nat.eqb_eq in E. subst. intuition.
     + apply Nat.eqb_neq in E. split; [discriminate|]. intros [->|[]]. congruence.
-  - destruct st as [|[|] [|]| | | |? ? ?]; simpl in *; try contradiction.
+  - destruct st as [|[|] [|]| | |]; simpl in *; try contradiction.
     unfold hit_ok. destruct (Nat.eqb id0 id) eqn:E; simpl.
     + apply Nat.eqb_eq in E. subst. intuition.
     + apply Nat.eqb_neq in E. split; [discriminate|]. intros [->|[]]. congruence.
-  - destruct st as [|[|] sn| | | |? ? ?]; simpl in *; try contradiction.
+  - destruct st as [|[|] sn| | |]; simpl in *; try contradiction.
     unfold hit_ok. destruct (Nat.eqb id0 id) eqn:E; simpl.
     + apply Nat.eqb_eq in E. subst. intuition.
     + apply Nat.eqb_neq in E. split; [discriminate|]. intros [->|[]]. congruence.
-  - destruct st as [|[|] sn| | | |? ? ?]; simpl in *; try contradiction;
+  - destruct st as [|[|] sn| | |]; simpl in *; try contradiction;
       unfold hit_ok; destruct (Nat.eqb id0 id) eqn:E; simpl;
       try (apply Nat.eqb_eq in E; subst; destruct o; simpl; intuition);
       apply Nat.eqb_neq in E; (split; [discriminate|]); intros [->|[]]; congruence.
-  - destruct st as [| |ns sc sx| | |? ? ?]; try contradiction. destruct sx; try contradiction.
+  - destruct st as [| |ns sc sx| |]; try contradiction. destruct sx; try contradiction.
     pose proof (IHs sc id0 (un_in k o) cx H) as Fs.
     pose proof (proj2 (proj2 (spec_all s))) as IH3. pose proof (proj1 (proj2 (spec_all s))) as IH2.
     pose proof (proj1 (spec_all s)) as IH1.
     repeat hstep; finish_hit.
-  - destruct st as [| |ns sa sb| | |? ? ?]; try contradiction.
+  - destruct st as [| |ns sa sb| |]; try contradiction.
     pose proof (proj2 (proj2 (spec_all a))) as IHa3. pose proof (proj1 (proj2 (spec_all a))) as IHa2.
     pose proof (proj1 (spec_all a)) as IHa1.
     pose proof (proj2 (proj2 (spec_all b))) as IHb3. pose proof (proj1 (proj2 (spec_all b))) as IHb2.
@@ -679,13 +669,13 @@ Arguments good2 e r : simpl nomatch.
 Lemma no_lost2 : forall e st, wf2 e st -> pending e st <> [].
 Proof.
   induction e as [v|x| |n|id|id|id c|id lvl| |id|k s IHs|k a IHa b IHb]; intros st H; simpl in H; try contradiction.
-  - destruct st as [|[|] sn| | | |? ? ?]; simpl in *; try contradiction. discriminate.
-  - destruct st as [|[|] [|]| | | |? ? ?]; simpl in *; try contradiction. discriminate.
-  - destruct st as [|[|] sn| | | |? ? ?]; simpl in *; try contradiction. discriminate.
-  - destruct st as [|[|] sn| | | |? ? ?]; simpl in *; try contradiction; discriminate.
-  - destruct st as [| |ns sc sx| | |? ? ?]; try contradiction. destruct sx; try contradiction.
+  - destruct st as [|[|] sn| | |]; simpl in *; try contradiction. discriminate.
+  - destruct st as [|[|] [|]| | |]; simpl in *; try contradiction. discriminate.
+  - destruct st as [|[|] sn| | |]; simpl in *; try contradiction. discriminate.
+  - destruct st as [|[|] sn| | |]; simpl in *; try contradiction; discriminate.
+  - destruct st as [| |ns sc sx| |]; try contradiction. destruct sx; try contradiction.
     simpl. auto.
-  - destruct st as [| |ns sa sb| | |? ? ?]; try contradiction. simpl. intros E.
+  - destruct st as [| |ns sa sb| |]; try contradiction. simpl. intros E.
     apply app_eq_nil in E. destruct E as (Ea & Eb).
     destruct (is_seq k).
     + destruct (ph ns); try contradiction; destruct H as (Ha & Hb).
@@ -763,9 +753,9 @@ Proof.
   induction e as [v|x| |n|id|id|id c0|id lvl| |id|k s IHs|k a0 IHa b0 IHb]; intros a b c [->|S1] [->|S2];
     try (left; reflexivity); try (right; assumption); simpl in S1, S2; try contradiction.
   destruct k; try contradiction.
-  destruct a as [| |na sa xa| | |? ? ?]; try contradiction. destruct xa; try contradiction.
-  destruct b as [| |nb sb xb| | |? ? ?]; try contradiction. destruct xb; try contradiction.
-  destruct c as [| |nc sc xc| | |? ? ?]; try contradiction. destruct xc; try contradiction.
+  destruct a as [| |na sa xa| |]; try contradiction. destruct xa; try contradiction.
+  destruct b as [| |nb sb xb| |]; try contradiction. destruct xb; try contradiction.
+  destruct c as [| |nc sc xc| |]; try contradiction. destruct xc; try contradiction.
   destruct S1 as (E1 & S1). destruct S2 as (E2 & S2). right. simpl. split; [congruence|].
   exact (IHs _ _ _ S1 S2).
 Qed.
